@@ -19,6 +19,8 @@ func init() {
 		Assumptions: []string{"sync.WaitGroup / context cancellation semantics"},
 		Rules: map[string]string{
 			"R0": "in each stop unit claim.Store(false), state.Store(STOPPED) and the call of the cancel field have the election mutex (W) in their must-lockset and all precede the first Unlock; the goroutine that waits for the WaitGroup is started after that Unlock",
+			"R8": "in an API stop unit that takes a context / time-out: no KeyValue operation reachable by plain calls (each must be issued from a goroutine whose result is awaited with the remaining time); no blocking wait on time.After(d) reachable after another wait on the same d",
+			"R7": "at every test of the claim-set unit's result after an own write: must-follow from the refused (false) edge of a call that reaches a Delete-class store operation (its conditions are C01-R6: shutdown with key deletion under way, own revision)",
 			"R1": "every store to the state field outside stop units, the constructor and the start unit is guarded by state != STOPPED in its critical section; the claim-set unit by C02-R2",
 			"R2": "classification of every `go` statement of the election code: tracked | bounded-detached | waiter/callback (no store operation reachable) | adapter forwarding; anything else reaching a store operation is a violation",
 			"R3": "every blocking Select in a stop unit has a time.After state (StopWithContext: also ctx.Done()); no receive / WaitGroup.Wait / Sleep outside a select or a spawned waiter; no blocking instruction or store operation with the election mutex in the may-lockset",
@@ -233,6 +235,8 @@ func checkC09(c *Ctx) {
 			switch {
 			case len(targets) == 0 && m.invokesFieldValue(in, m.OnDemote):
 				c.ok("R2", key, in, "callback goroutine (no store operation of the library reachable)")
+			case containsFn(m.StopUnits, topFunc(f)) && m.awaitedBySpawner(sp):
+				c.ok("R2", key, in, "awaited by the stop call that starts it: the goroutine signals its end on a channel the stop unit waits for, and every other case of that wait returns an error (after a successful stop it has finished)")
 			case sp.Tracked:
 				c.ok("R2", key, in, "tracked: wg.Add(1) before go, deferred wg.Done first in the goroutine")
 			case !reachStore:
@@ -365,12 +369,23 @@ func checkC09(c *Ctx) {
 		if op.Method != "Delete" {
 			continue
 		}
-		if _, _, ok := m.stopFrame(op.Call); !ok {
+		inStop := false
+		var stopFr OpFrame
+		for _, fr := range m.opFrames(op.Call) {
+			if fr.Stop {
+				inStop, stopFr = true, fr
+			}
+		}
+		if !inStop {
 			continue
 		}
 		nDel++
 		var foreign []string
-		for _, l := range append(m.AllGuards(op.Call, false), m.controlConds(op.Call)...) {
+		conds := append(m.frameGuards(stopFr, op.Call), m.controlConds(op.Call)...)
+		for _, ci := range stopFr.Chain {
+			conds = append(conds, m.controlConds(ci)...)
+		}
+		for _, l := range conds {
 			s := l.S.String()
 			switch {
 			case l.Derived:
@@ -386,7 +401,7 @@ func checkC09(c *Ctx) {
 			}
 		}
 		c.check(len(foreign) == 0, "R5", "Delete depends only on DeleteKey, ownership and the completed wait in "+shortFn(op.Fn), op.Call, "other conditions on the way to Delete: %v", foreign)
-		for _, l := range m.AllGuards(op.Call, false) {
+		for _, l := range m.frameGuards(stopFr, op.Call) {
 			if vc := m.verdictCall(l); vc != nil {
 				g := vc.Call.StaticCallee()
 				m.ownershipExtras[g] = nil
@@ -400,6 +415,142 @@ func checkC09(c *Ctx) {
 	}
 	if nDel == 0 {
 		c.viol("R5", "shutdown deletion exists", nil, "no Delete in a stop unit: with DeleteKey set the record stays until it expires")
+	}
+
+	// ---- R7: a write that lands after the stop began is not left behind ------------------
+	// An acquisition whose Create/Update succeeds while the election is being stopped is refused
+	// the claim (C02-R2). The record then names an instance that will never lead. The stop
+	// cannot remove it (it was not leader when the stop began), so the refused acquisition must:
+	// on the refusal edge every path reaches a deletion of the record (C01-R6 decides that this
+	// deletion is conditioned on a shutdown that asked for it and presents the own revision).
+	n7 := 0
+	reachesDelete := func(g *ssa.Function) bool {
+		for _, h := range sortedFns(m.staticReach(g, false)) {
+			found := false
+			eachInstr(h, func(in ssa.Instruction) {
+				if _, ok := m.isKVCall(valueOf(in), "Delete"); ok {
+					found = true
+				}
+			})
+			if found {
+				return true
+			}
+		}
+		return false
+	}
+	for _, unit := range m.ClaimSet {
+		for _, cs := range m.callers[unit] {
+			if cs.IsGo {
+				continue
+			}
+			call, ok := cs.Instr.(*ssa.Call)
+			if !ok {
+				continue
+			}
+			// the If on the unit's result
+			eachInstr(cs.Caller, func(in ssa.Instruction) {
+				ifi, ok := in.(*ssa.If)
+				if !ok {
+					return
+				}
+				l := m.litOf(ifi.Cond, true, ifi)
+				if l.S.V != ssa.Value(call) {
+					return
+				}
+				n7++
+				refusedEdge := 1
+				if !l.Truth {
+					refusedEdge = 0
+				}
+				first := ifi.Block().Succs[refusedEdge].Instrs[0]
+				isDiscard := func(x ssa.Instruction) bool {
+					c2, ok := x.(*ssa.Call)
+					if !ok {
+						return false
+					}
+					if _, ok := m.isKVCall(c2, "Delete"); ok {
+						return true
+					}
+					g := c2.Call.StaticCallee()
+					return g != nil && m.isLib(g) && reachesDelete(g)
+				}
+				ok2 := isDiscard(first)
+				var exit ssa.Instruction
+				if !ok2 {
+					ok2, exit = mustFollow(first, isDiscard, nil)
+				}
+				c.check(ok2, "R7", "a refused claim does not leave the record just written behind: "+shortFn(cs.Caller), in,
+					"every path from the edge where %s returned false reaches a deletion of the record: %v (exit without one: %s). Otherwise a StopWithContext{DeleteKey} that lands while this write is in flight returns with the instance's own record still in the store, and a successor waits for its expiry.", shortFn(unit), ok2, c.posOf(exit))
+			})
+		}
+	}
+	if n7 < 2 {
+		c.undecided("R7", "instance-floor", nil, "only %d tests of the claim-set unit's result found; 2 on the reference tree (create, takeover)", n7)
+	}
+
+	// ---- R8: the stop call itself never waits for the store without a bound ---------------
+	// StopWithContext promises to return within its time-out. Every store operation issued on
+	// the calling goroutine (reached from the stop unit by plain calls) blocks it for as long
+	// as the store takes; and waits that each take the full time-out add up.
+	for _, su := range m.StopUnits {
+		if !isAPI(su) {
+			continue
+		}
+		hasBound := false
+		for _, p := range su.Params {
+			if isNamed(p.Type(), "context", "Context") {
+				hasBound = true
+			}
+		}
+		if !hasBound {
+			continue // Stop(): 5 s plus the callback; it issues no store operation (checked by R5's absence of Delete there)
+		}
+		for _, g := range sortedFns(m.staticReach(su, false)) {
+			eachInstr(g, func(in ssa.Instruction) {
+				kv, ok := m.isKVCall(valueOf(in), "")
+				if !ok {
+					return
+				}
+				via := ""
+				if g != su {
+					via = " via " + shortFn(g)
+				}
+				c.viol("R8", "store operation on the goroutine of "+shortFn(su)+": "+kv.Call.Method.Name()+via, in,
+					"%s is called synchronously by %s after its bounded wait: a store that answers slowly holds the call beyond its time-out (observed: Timeout 300 ms, Delete taking 1.2 s, return after 1.2 s)", kv.Call.Method.Name(), shortFn(su))
+			})
+		}
+		// waits with the full time-out, one after the other
+		var waits []ssa.Instruction
+		eachInstr(su, func(in ssa.Instruction) {
+			if sel, ok := in.(*ssa.Select); ok && sel.Blocking {
+				if _, isWait := m.selectWait(sel); isWait {
+					waits = append(waits, in)
+				}
+			}
+		})
+		for i := 1; i < len(waits); i++ {
+			d1, _ := m.selectWait(waits[i].(*ssa.Select))
+			s1 := m.Sym.Of(d1.Dur).String()
+			full := false
+			for j := 0; j < i; j++ {
+				if reachableAfter(waits[j], func(x ssa.Instruction) bool { return x == waits[i] }) == nil {
+					continue
+				}
+				d0, _ := m.selectWait(waits[j].(*ssa.Select))
+				s0 := m.Sym.Of(d0.Dur).String()
+				// time.Until(deadline) on a common deadline is the remaining time; the full time-out
+				// again is either the same expression as an earlier full wait, or the very duration
+				// an earlier wait's deadline was computed from
+				if strings.HasPrefix(s1, "call time.Until(") {
+					continue
+				}
+				if s0 == s1 || (strings.HasPrefix(s0, "call time.Until(") && strings.Contains(s0, s1)) {
+					full = true
+				}
+			}
+			c.check(!full, "R8", fmt.Sprintf("waits of %s share one deadline: wait #%d", shortFn(su), i+1), waits[i],
+				"this wait takes the full time-out (%s) although it follows an earlier wait on the same time-out: the call can take twice its time-out", clip(s1, 80))
+		}
 	}
 
 	// ---- R6 -----------------------------------------------------------------------
